@@ -236,3 +236,144 @@ def _make_mgr(ns, ZR, ZM):
 
 for _ns, _zr, _zm in managers():
     _make_mgr(_ns, _zr, _zm)
+
+
+# ---- processors and caches as seen from TimeZone (environment objects with ghost binding state) ----
+BOUND0 = z3.Const('gh_bound0', z3.ArraySort(P64, P64))     # processor object -> zone it is currently bound to
+
+
+def _bound(st):
+    return st.ghost.get('bound', BOUND0)
+
+
+def _set_zone_info_model(ex, st, c):
+    p, zi = ex.ptr_to_bv(c.args[0]), ex.ptr_to_bv(c.args[1])
+    st.ghost = dict(st.ghost)
+    st.ghost['bound'] = z3.Store(_bound(st), p, zi)
+    st.log.append(('setZoneInfo', p, [zi]))
+    return None
+
+
+contract('virtual ace_time::ZoneProcessor::setZoneInfo(void const*)', extern=True, model=_set_zone_info_model,
+         note='contract of every override (proved for both processors, C08): afterwards the processor is bound to the given zone')
+
+
+def _query_model(tag, bits):
+    def model(ex, st, c):
+        p = ex.ptr_to_bv(c.args[-1 if tag == 'getOffsetDateTime_sret' else 0])
+        st.log.append((tag, p, [z3.Select(_bound(st), p)]))
+        if bits is None:
+            return None
+        if bits == 'ptr':
+            return Ptr(None, ex.fresh('proc_' + tag, 64))
+        return ex.fresh('proc_' + tag, bits)
+    return model
+
+
+contract('virtual ace_time::ZoneProcessor::getUtcOffset(int) const', extern=True, model=_query_model('getUtcOffset', 16),
+         note='ASSUMED: returns an arbitrary TimeOffset (possibly the error value) -- what it computes is C01/C02')
+contract('virtual ace_time::ZoneProcessor::getDeltaOffset(int) const', extern=True, model=_query_model('getDeltaOffset', 16))
+contract('virtual ace_time::ZoneProcessor::getAbbrev(int) const', extern=True, model=_query_model('getAbbrev', 'ptr'))
+contract('virtual ace_time::ZoneProcessor::getOffsetDateTime(ace_time::LocalDateTime const&) const', extern=True,
+         model=_query_model('getOffsetDateTime', 64))
+contract('virtual ace_time::ZoneProcessor::printTo(Print&) const', extern=True, model=_query_model('printTo', None))
+contract('virtual ace_time::ZoneProcessor::printShortTo(Print&) const', extern=True, model=_query_model('printShortTo', None))
+
+
+def _get_zone_processor_model(ex, st, c):
+    cache, zi = ex.ptr_to_bv(c.args[0]), ex.ptr_to_bv(c.args[1])
+    p = ex.fresh('cache_proc', 64)
+    st.ghost = dict(st.ghost)
+    # contract of the cache (proved on ZoneProcessorCacheImpl::getZoneProcessor, C08): the processor returned is bound to the key
+    st.ghost['bound'] = z3.Store(_bound(st), p, zi)
+    st.log.append(('getZoneProcessor', cache, [zi, p]))
+    return Ptr(None, p)
+
+
+contract('virtual ace_time::ZoneProcessorCache::getZoneProcessor(void const*)', extern=True, model=_get_zone_processor_model,
+         note='contract of the cache (proved separately): returns a processor bound to the requested zone, or null')
+
+DELEGATING = ('getUtcOffset', 'getDeltaOffset', 'getAbbrev', 'getOffsetDateTime', 'printTo', 'printShortTo')
+
+
+def bound_to_own_zone(c):
+    """every processor query made on behalf of this time zone found the processor bound to this zone"""
+    f = tz_fields(c.old, c.this if c.fn is None or c.fn.params[0][1] == 'this' else c.args[1])
+    out = []
+    for k, (tag, p, extra) in enumerate(c.log):
+        if tag in DELEGATING:
+            out.append(('processor-bound-to-this-zone@%s#%d' % (tag, k), extra[0] == f['zi']))
+    return out
+
+
+def _utc_post(c):
+    f = tz_fields(c.old, c.this)
+    t = f['type']
+    zone_kind = z3.Or(t == K_BASIC, t == K_EXT, t == K_BASIC_M, t == K_EXT_M)
+    answers = [e for e in c.log if e[0] == 'getUtcOffset']
+    out = _utc_offset_manual_post(c)
+    out.append(('unknown-kind-gives-error-offset', z3.Implies(z3.And(t != K_MANUAL, z3.Not(zone_kind)), c.result == z3.BitVecVal(-32768, 16))))
+    out += bound_to_own_zone(c)
+    return out
+
+
+contract('ace_time::TimeZone::getUtcOffset(int) const', props=['C16', 'C08'], ensures=_utc_post, assigns=lambda c: [])
+
+
+# ---- lemmas for C16 --------------------------------------------------------------------------------
+
+@lemma('C16')
+def save_restore_round_trip(ex):
+    """restore(save(tz)) == tz for a zone created by the same manager, when registry ids are pairwise distinct;
+    manual zones restore to the same offsets; error zones to error zones."""
+    from vc.symex import MemView
+    out = []
+    for ns, ZR, ZM in managers():
+        mem = z3.Const('lm_mem', ex.mem_sort)
+        mem2 = z3.Const('lm_mem2', ex.mem_sort)
+        mgr = Ptr(None, z3.BitVec('lm_mgr', 64))
+        tzp = Ptr(None, z3.BitVec('lm_tz', 64))
+        outp = Ptr(None, z3.BitVec('lm_out', 64))
+        dp = Ptr(None, z3.BitVec('lm_d', 64))
+        V = MemView(ex, {}, mem)
+        size = V.field(mgr, ZM, 'mZoneRegistrar.mRegistrySize')
+        reg = V.field(mgr, ZM, 'mZoneRegistrar.mZoneRegistry')
+        tz = tz_fields(V, tzp)
+        j = z3.BitVec('lm_j', 16)
+        d = z3.BitVec('lm_data', 64)
+        # save
+        _, post_save = instantiate(ex, 'ace_time::TimeZone::toTimeZoneData() const', [tzp], mem_old=mem, result=d)
+        # the saved record laid out in memory at dp
+        memd = z3.Store(z3.Store(z3.Store(z3.Store(z3.Store(mem, dp.off, byte(d, 0)), dp.off + 4, byte(d, 4)), dp.off + 5, byte(d, 5)),
+                                 dp.off + 6, byte(d, 6)), dp.off + 7, byte(d, 7))
+        pre_r, post_r = instantiate(ex, ZM + '::createForTimeZoneData(ace_time::TimeZoneData const&)', [outp, mgr, dp],
+                                    mem_old=memd, mem_new=mem2)
+        res = tz_fields(MemView(ex, {}, mem2), outp)
+        a, b = z3.BitVecs('qa qb', 16)
+        distinct_ids = z3.ForAll([a, b], z3.Implies(z3.And(z3.ULT(a, size), z3.ULT(b, size), IDG(reg, a) == IDG(reg, b)), a == b),
+                                 patterns=[z3.MultiPattern(IDG(reg, a), IDG(reg, b))])
+        frame = [  # the manager object and the registry are not touched by writing the record at dp (separate objects)
+            MemView(ex, {}, memd).field(mgr, ZM, 'mZoneRegistrar.mRegistrySize') == size,
+            MemView(ex, {}, memd).field(mgr, ZM, 'mZoneRegistrar.mZoneRegistry') == reg,
+            MemView(ex, {}, memd).field(mgr, ZM, 'mZoneRegistrar.mIsSorted') == V.field(mgr, ZM, 'mZoneRegistrar.mIsSorted')]
+        cache_off, _ = ex.mod.field(ZM, 'mZoneProcessorCache')
+        cache = mgr.off + cache_off
+        created = z3.And(z3.ULT(j, size), tz['type'] == CT(cache), tz['zi'] == ZIG(reg, j), tz['proc'] == cache,
+                         z3.Or(CT(cache) == K_BASIC_M, CT(cache) == K_EXT_M))
+        id_def = zone_id_of_view(ex, V, ZIG(reg, j)) == IDG(reg, j)     # instance of the definition of IDG
+        out.append(LemmaOb('%s: restore(save(tz)) == tz for a zone created by the manager' % ns,
+                           post_save + post_r + frame + [created, id_def, distinct_ids], tz_equal(tz, res)))
+        out.append(LemmaOb('%s: manual zones restore to the same offsets' % ns,
+                           post_save + post_r + [tz['type'] == K_MANUAL], z3.And(res['type'] == K_MANUAL, res['std'] == tz['std'], res['dst'] == tz['dst'])))
+        out.append(LemmaOb('%s: error zones restore to error zones' % ns,
+                           post_save + post_r + [tz['type'] == K_ERROR], res['type'] == K_ERROR))
+        out.append(LemmaOb('%s: ids not in the registry restore to the error zone' % ns,
+                           post_r + [tzd_fields(MemView(ex, {}, memd), dp)['type'] == D_ZONEID,
+                                     id_absent(reg, size, tzd_fields(MemView(ex, {}, memd), dp)['zid'])] + frame,
+                           res['type'] == K_ERROR))
+    return out
+
+
+def zone_id_of_view(ex, view, zi_bv):
+    off, _ = ex.mod.field('ace_time::basic::ZoneInfo', 'zoneId')
+    return view.load(Ptr(None, zi_bv + off), 4)
